@@ -618,7 +618,7 @@ func traceCoq(wl Workload, res *traceResult, fx string) (string, []string) {
 // genWorkload draws a random scenario. zeroReads/concurrent are used only
 // when the tree under test is expected to survive them (or for C24 itself).
 func genWorkload(r *rand.Rand, thorough, zeroReads, concurrent bool) Workload {
-	windows := []int{0, 1, 7, 65535, 64, 1000}
+	windows := []int{0, 1, 7, 65535, 64, 1000, 131072, 1 << 20}
 	w := windows[r.Intn(len(windows))]
 	wl := Workload{Kind: "streams", Seed: r.Int63()}
 	wl.W = [2]int{w, w}
@@ -663,7 +663,7 @@ func genWorkload(r *rand.Rand, thorough, zeroReads, concurrent bool) Workload {
 			win := wl.W[readerSide]
 			var sizes []int
 			if win >= 65535 {
-				sizes = []int{0, 1, 65534, 65535, 65536, 200000, 100, 3000}
+				sizes = []int{0, 1, 65534, 65535, 65536, 65537, 200000, 100, 3000}
 			} else {
 				sizes = []int{0, 1, max(win-1, 0), win, win + 1, 3*win + 2, 2, 5}
 			}
